@@ -172,6 +172,7 @@ func unionScenario(o unionOpts) *Scenario {
 			add(Action{Name: fmt.Sprintf("raise(%s,%s)", pa.p, shortBig(pa.a)), Dt: ms, Txs: tx1(model.Msg{Kind: model.EntRaise, From: pa.p, Den: mc.Nund, Amt: pa.a.String()}),
 				Enabled: func(m *model.State, _ map[string]int) bool { return len(m.Ent.Orders) < maxOrders }})
 		}
+		add(decideAndGov("S1", 1, 2, "gov(ent:signers=S1,S2;min=2)", "S1,S2", 2, 100))
 		add(Action{Name: "gov(ent:denom=xyz)", Gov: &GovSpec{Kind: model.EntParams, Params: model.EntParamsRaw{Denom: "xyz", Signers: "S1", Min: 1, Limit: 100}}, Count: "gov",
 			Enabled: func(_ *model.State, aux map[string]int) bool { return aux["gov"] < 1 }})
 	}
@@ -191,6 +192,22 @@ func unionScenario(o unionOpts) *Scenario {
 			add(one(fmt.Sprintf("multi3(fail@%d)", j), model.Tx{Msgs: msgs}))
 		}
 		add(one("multi3(ok)", model.Tx{Msgs: []model.Msg{okSend, okCreate, okCreate2}}))
+		// enterprise messages whose effects are rolled back with the transaction: O is whitelisted and raises
+		// an order in a transaction whose last message fails; afterwards O must still be unable to raise
+		leak := one("multi3(whitelist(S1,+O),raise(O,5),fail)", model.Tx{Msgs: []model.Msg{
+			{Kind: model.EntWhitelist, From: "S1", To: "O", N: 1}, {Kind: model.EntRaise, From: "O", Den: mc.Nund, Amt: "5"}, {Kind: model.EntDecide, From: "S1", ID: 99, N: 2}}})
+		leak.Count = "rolled_back_whitelisting"
+		add(leak, Action{Name: "raise(O,5)", Dt: ms, Txs: tx1(model.Msg{Kind: model.EntRaise, From: "O", Den: mc.Nund, Amt: "5"}),
+			Enabled: func(m *model.State, _ map[string]int) bool { return len(m.Ent.Orders) < maxOrders }})
+		s.PostProcess = func(e *Exec, discs []Disc) []Disc {
+			for i := range discs {
+				if e.Aux["rolled_back_whitelisting"] > 0 && discs[i].Kind == "tx.accept_unexpected:ent.raise:not_whitelisted" {
+					discs[i].Kind = "tx.nonatomic:later_effect"
+					discs[i].Detail = "an address whitelisted only inside a failed transaction can raise an order afterwards: " + discs[i].Detail
+				}
+			}
+			return discs
+		}
 		// a message that aborts with a panic as the last of three (top-up beyond year 9999, finding F9)
 		huge := pow2(100).String()
 		add(one("multi3(panic@2)", model.Tx{Msgs: []model.Msg{okSend,
@@ -210,6 +227,70 @@ func shortBig(b *big.Int) string {
 	return fmt.Sprintf("2^%d", b.BitLen()-1)
 }
 
+// c02Orders: several orders of the same purchasers in flight at once — raised, accepted and completed in
+// the same and in consecutive blocks — by purchasers that already hold locked eFUND from an earlier
+// order and have partly spent it.
+func c02Orders() *Scenario {
+	far := GenesisTime.Unix() + 1_000_000_000
+	g := BaseGenesis(
+		mc.AcctSpec{Name: "S1", Coins: Coins(1000, 0)},
+		mc.AcctSpec{Name: "P1", Coins: Coins(1000, 0)}, mc.AcctSpec{Name: "P2", Coins: Coins(1000, 0)},
+		mc.AcctSpec{Name: "PV", Kind: mc.Continuous, Coins: Coins(1000, 0), Vesting: Coins(1000, 0), VestEnd: far},
+	)
+	g.Whitelist = []string{"P1", "P2", "PV"}
+	g.Wrk.FeeReg = 10
+	s := &Scenario{Name: "supply-orders", Genesis: g, KeyTimeNs: false, Visit: supplyOracle}
+	ms := time.Millisecond
+	const maxOrders = 5
+	room := func(n int) func(m *model.State, _ map[string]int) bool {
+		return func(m *model.State, _ map[string]int) bool { return len(m.Ent.Orders)+n <= maxOrders }
+	}
+	rmsg := func(p string, a int64) model.Msg {
+		return model.Msg{Kind: model.EntRaise, From: p, Den: mc.Nund, Amt: amt(a)}
+	}
+	acc := func(id uint64) model.Msg { return model.Msg{Kind: model.EntDecide, From: "S1", ID: id, N: 2} }
+	raised := func(ids ...uint64) func(m *model.State, _ map[string]int) bool {
+		return func(m *model.State, _ map[string]int) bool {
+			for _, id := range ids {
+				o, ok := m.Ent.Orders[id]
+				if !ok || o.Status != model.StRaised || len(o.Decisions) > 0 {
+					return false
+				}
+			}
+			return true
+		}
+	}
+	two := func(a, b model.Msg) func(*model.State) []model.Tx {
+		return func(*model.State) []model.Tx { return []model.Tx{{Msgs: []model.Msg{a}}, {Msgs: []model.Msg{b}}} }
+	}
+	pre := func(a Action) {
+		a.PrefixOnly, a.Enabled = true, nil
+		s.Actions = append(s.Actions, a)
+		s.Prefix = append(s.Prefix, a.Name)
+	}
+	pre(Action{Name: "raise(P1,50)", Dt: ms, Txs: tx1(rmsg("P1", 50))})
+	pre(Action{Name: "accept(S1,#1)", Dt: ms, Txs: tx1(acc(1))})
+	w := Action{Name: "wait(1s)", Dt: time.Second, Enabled: func(m *model.State, _ map[string]int) bool { return elapsed(m) < 30 }}
+	s.Actions = append(s.Actions, w)
+	s.Prefix = append(s.Prefix, "wait(1s)", "wait(1s)")
+	s.Actions = append(s.Actions,
+		Action{Name: "raise(P1,11)", Dt: ms, Txs: tx1(rmsg("P1", 11)), Enabled: room(1)},
+		Action{Name: "raise(P2,13)", Dt: ms, Txs: tx1(rmsg("P2", 13)), Enabled: room(1)},
+		Action{Name: "raise(PV,500)", Dt: ms, Txs: tx1(rmsg("PV", 500)), Enabled: room(1)},
+		Action{Name: "raise(P1,11)+raise(P1,17)", Dt: ms, Txs: two(rmsg("P1", 11), rmsg("P1", 17)), Enabled: room(2)},
+		Action{Name: "raise(P1,11)+raise(P2,13)", Dt: ms, Txs: two(rmsg("P1", 11), rmsg("P2", 13)), Enabled: room(2)},
+		Action{Name: "accept(S1,#2)", Dt: ms, Txs: tx1(acc(2)), Enabled: raised(2)},
+		Action{Name: "accept(S1,#3)", Dt: ms, Txs: tx1(acc(3)), Enabled: raised(3)},
+		Action{Name: "accept(S1,#2)+accept(S1,#3)", Dt: ms, Txs: two(acc(2), acc(3)), Enabled: raised(2, 3)},
+		Action{Name: "accept(S1,#3)+accept(S1,#4)", Dt: ms, Txs: two(acc(3), acc(4)), Enabled: raised(3, 4)},
+		// P1 spends part of its locked eFUND on a fee
+		Action{Name: "wreg(P1,fee10)", Dt: ms, Txs: func(*model.State) []model.Tx {
+			return []model.Tx{{Msgs: []model.Msg{{Kind: model.WrkReg, From: "P1", S: []string{"chain-p", "n", "0xg", "t"}}}, Fee: fee(10)}}
+		}, Enabled: func(m *model.State, _ map[string]int) bool { return len(m.Wrk.Ents) < 2 }},
+	)
+	return s
+}
+
 func init() {
 	Checks["C02"] = func() *Check {
 		sc := unionScenario(unionOpts{name: "union-supply"})
@@ -218,6 +299,9 @@ func init() {
 			Runs: []Run{{S: sc, Opt: map[Tier]Options{
 				Quick:    {Depth: 4, Budget: 150 * time.Second, ReplayEvery: 16},
 				Thorough: {Depth: 6, Budget: 25 * time.Minute, ReplayEvery: 32, MaxStates: 500000},
+			}}, {S: c02Orders(), Opt: map[Tier]Options{
+				Quick:    {Depth: 5, Budget: 100 * time.Second, ReplayEvery: 16},
+				Thorough: {Depth: 8, Budget: 20 * time.Minute, ReplayEvery: 32, MaxStates: 500000},
 			}}},
 			Owns:        ownsAny("supply", "invariant:bank"),
 			Assumptions: []string{"IBC vouchers (the only other Minter permission) are out of scope: no IBC channel exists in the explored chains"},
